@@ -192,7 +192,41 @@ def run_writer(case, ctx):
     if sp is not None:
         strata.append('footer4n%%512=%d' % (sp.hlen % 512) if sp.hlen % 512 in (0, 4, 508) else 'footer4n%512=other')
         strata.append('narr>=3' if sp.narr >= 3 else 'narr<3')
-    return {'violations': bad, 'counters': {'files_checked': 1}, 'strata': strata}
+    nfiles = 1
+    if geom == '3d' and src['data'].shape[0] >= 3 and src['data'].shape[1] >= 3 and case['src'].get('sorting', 2) == 2:
+        # the same converter class as a writer of a WINDOW of the source (its footer is sized for the window, not for the source: the two
+        # trace counts are chosen to need different numbers of 512-byte pages whenever the grid allows)
+        import zlib
+        wr = random.Random(zlib.crc32(case['id'].encode()))
+        D = src['data']
+        nI, nX, nZ = D.shape
+        best = None
+        for _ in range(30):
+            a = wr.randrange(0, nI - 1)
+            b = wr.randrange(a + 2, nI + 1) if a + 2 <= nI else nI
+            c = wr.randrange(0, nX - 1)
+            d = wr.randrange(c + 2, nX + 1) if c + 2 <= nX else nX
+            if (b - a, d - c) != (nI, nX):
+                best = best or (a, b, c, d)
+                if oracles.pad(4 * (b - a) * (d - c), 512) != oracles.pad(4 * nI * nX, 512):
+                    best = (a, b, c, d)
+                    break
+        if best:
+            a, b, c, d = best
+            outw = ctx['scratch'].file('outw.sgz')
+            conv.convert_segy(src['path'], outw, rate, bs, reduce_iops=case.get('reduce_iops', False), detection=case['detection'], window=best)
+            tw = {'rate': rate, 'bs': conv.resolve_bs(rate, bs), 'shape': (b - a, d - c, nZ), 'ilines': src['ilines'][a:b], 'xlines': src['xlines'][c:d], 'samples': src['samples'],
+                  'ntraces': (b - a) * (d - c), 'version': pinned_version_tuple(), 'file_header': src['file_header'], 'detect_code': DETECT[case['detection']], 'source_code': 0,
+                  'data_image': oracles.image(D[a:b, c:d], rate)}
+            if 'fields' in truth:
+                tw['fields'] = {k: np.asarray(v).reshape(nI, nX)[a:b, c:d].reshape(-1) for k, v in truth['fields'].items()}
+            bw, spw = conform.check(outw, tw, tag='3d-window:')
+            bad += bw
+            nfiles += 1
+            strata.append('writer:3d-window')
+            if spw is not None and oracles.pad(4 * (b - a) * (d - c), 512) != oracles.pad(4 * nI * nX, 512):
+                strata.append('window-footer-pages-differ-from-source')
+    return {'violations': bad, 'counters': {'files_checked': nfiles}, 'strata': strata}
 
 
 def run_fixture_writer(case, ctx):
@@ -612,7 +646,7 @@ def sample_view(case, res):
 
 def finalize(tier, cases, results, counters, strata):
     reasons = []
-    need = ['writer:3d', 'writer:irregular', 'writer:2d', 'writer:numpy', 'irregular-reblock-chain', 'irregular-export-chain', 'repo-tests', 'writer:VdsConverter', 'writer:ZgyConverter', 'writer:zgy-generated', 'zgy-stage:crop', 'zgy-crop-z:yes', 'zgy-stage:reblock', 'stage:crop',
+    need = ['writer:3d', 'writer:3d-window', 'window-footer-pages-differ-from-source', 'writer:irregular', 'writer:2d', 'writer:numpy', 'irregular-reblock-chain', 'irregular-export-chain', 'repo-tests', 'writer:VdsConverter', 'writer:ZgyConverter', 'writer:zgy-generated', 'zgy-stage:crop', 'zgy-crop-z:yes', 'zgy-stage:reblock', 'stage:crop',
             'stage:reblock', 'stage:export', 'detection:heuristic', 'detection:thorough', 'detection:exhaustive', 'detection:strip',
             'version-space', 'version-strings', 'version-gates', 'gate-writer', 'gate-reader', 'footer4n%512=0', 'narr>=3', 'legacy-source:unpadded', 'legacy-source:padded']
     for s in need:
